@@ -67,5 +67,17 @@ func fname(fn *ssa.Function) string { return core.FuncName(fn) }
 // NewCtx creates a check context.
 func NewCtx(p *core.Program, r *core.Report, tier string) *Ctx {
 	initAtomAliases(p.Funcs)
+	globalStoreFuncs = globalStoreFuncs[:0]
+	seenPkg := map[*ssa.Package]bool{}
+	for _, fn := range p.Funcs {
+		globalStoreFuncs = append(globalStoreFuncs, fn)
+		globalStoreFuncs = append(globalStoreFuncs, fn.AnonFuncs...)
+		if fn.Pkg != nil && !seenPkg[fn.Pkg] {
+			seenPkg[fn.Pkg] = true
+			if ini := fn.Pkg.Func("init"); ini != nil {
+				globalStoreFuncs = append(globalStoreFuncs, ini)
+			}
+		}
+	}
 	return &Ctx{P: p, R: r, Tier: tier, guarded: map[string]string{}}
 }
